@@ -12,7 +12,7 @@ SPEC = os.path.join(vlib.VERIF, "spec", "Conn")
 PLAN = {
     "C43": {"module": "Ping", "mc": ["Ping_mc.cfg"], "sim": [("Ping_sim.cfg", 13, 60, 600)]},
     "C41": {"module": "Salts", "mc": ["Salts_mc.cfg"], "sim": [("Salts_sim.cfg", 15, 150, 2000)]},
-    "C23": {"module": "Dispatch", "mc": ["Dispatch_mc.cfg"], "mc_thorough": ["Dispatch_deep.cfg"],
+    "C23": {"module": "Dispatch", "mc": ["Dispatch_mc.cfg", "Dispatch_cancel.cfg"], "mc_thorough": ["Dispatch_deep.cfg"],
             "sim": [("Dispatch_sim.cfg", 5, 100, 1500)]},
 }
 CAP = {"quick": 1200, "thorough": 12000}
